@@ -5,6 +5,7 @@ use crate::*;
 pub struct Exec {
     pub sim: Option<simx::SimCtx>,
     pub tim: Option<c34::TimCtx>,
+    pub src: Option<lc3_ensemble::asm::SourceInfo>,
 }
 
 impl Exec {
@@ -14,6 +15,7 @@ impl Exec {
             "case" => line.trim().to_string(),
             "sim" => simx::exec(&mut self.sim, &toks[1..]),
             "tim" => c34::exec(&mut self.tim, &toks[1..]),
+            "src" => c25::exec(&mut self.src, &toks[1..]),
             "off" => c35::exec(false, &toks[1..]),
             "offt" => c35::exec(true, &toks[1..]),
             "wop" => c15::exec(&toks[1..]),
